@@ -6,6 +6,11 @@ CONSTANTS
   NFlag = 256
   JRep = {1}
   MaxFaults = 0
+  TailBases = {}
+  TailPos = 0
+  TailComp = {}
+  ShortKinds = {}
+  ShortLen = 0
 INIT TInit
 NEXT TNext
 CONSTRAINT Progress
